@@ -3,6 +3,9 @@
    LiteralParser::parse and the "text" arm of LiteralParser::parse_typed.
    Hand-transcribed; DEFINITIONS ONLY.  Input = the UTF-8 bytes of the &str argument.
 
+   Follows /repo adf5bcc (the is_ascii / len >= 2 guards added there; before that commit these
+   parsers panicked on non-ASCII text and on a lone quote: findings F-C22-1..5, now fixed).
+
    * `&s[a..b]` on a str: LPanic unless a <= b <= len and both offsets are char boundaries;
    * `str::trim` removes leading / trailing Unicode White_Space characters (table below);
    * `u8::from_str_radix` / `str::parse::<u32>` / `str::parse::<i64>` (core::num) are transcribed as
@@ -140,14 +143,18 @@ Fixpoint chunk_loop (l : list Z) (step : nat) (radix : Z) (n : nat) (i : nat) : 
   end.
 Definition chunks_count (len step : nat) : nat := ((len + step - 1) / step)%nat.
 
+Definition has_non_ascii (l : list Z) : bool := existsb (fun b => negb (is_ascii b)) l.
+
+(* since /repo adf5bcc: `if !s.is_ascii() { bail!(..) }` before the byte-offset slicing *)
 Definition parse_hex_blob (l : list Z) : lres (list Z) :=
   if negb (length l mod 2 =? 0)%nat then LErr
+  else if has_non_ascii l then LErr
   else chunk_loop l 2 16 (chunks_count (length l) 2) 0.
 
 Definition parse_binary_blob (l : list Z) : lres (list Z) :=
   match l with
   | [] => LOk []
-  | _ => chunk_loop l 8 2 (chunks_count (length l) 8) 0
+  | _ => if has_non_ascii l then LErr else chunk_loop l 8 2 (chunks_count (length l) 8) 0
   end.
 
 (* ---------------------------------------------------------------- parse_uuid *)
@@ -180,8 +187,9 @@ Inductive lclass :=
 Definition lower (b : Z) : Z := if is_upper b then b + 32 else b.
 Definition eq_ignore_case (l w : list Z) : bool := zl_eqb (map lower l) w.
 
+(* since /repo adf5bcc: `s.len() >= 2 &&` in front *)
 Definition quoted (s : list Z) : bool :=
-  (first_is s 39 && last_is s 39) || (first_is s 34 && last_is s 34).
+  (2 <=? length s)%nat && ((first_is s 39 && last_is s 39) || (first_is s 34 && last_is s 34)).
 
 (* LiteralParser::parse *)
 Definition literal_parse (l : list Z) : lres lclass :=
@@ -246,6 +254,7 @@ Definition parse_time (l : list Z) : lres Z :=
           let base := (hour * 3600 + minute * 60 + second) * 1000000 in
           match micros_part with
           | Some frac =>
+              if has_non_ascii frac then LErr else            (* since /repo adf5bcc *)
               let padded := frac ++ repeat 48 (6 - char_count frac) in
               ldo truncated <- str_slice padded 0 (Nat.min 6 (length padded));
               match i64_parse truncated with
@@ -286,17 +295,3 @@ Definition run_lit (f : Z) (l : list Z) : option lit_out :=
   else if f =? f_uuid then Some (of_bytes (parse_uuid l))
   else if f =? f_vector then Some (of_class (parse_vector l))
   else None.
-
-(* the input classes in which the real parsers were found to panic (known findings 1..4):
-   1 parse_hex_blob / 2 parse_binary_blob on text with a non-ASCII character,
-   3 parse_time with a non-ASCII character in the fractional-seconds part,
-   4 LiteralParser::parse / parse_typed(text) on a text that is, after trimming, one quote character *)
-Definition has_non_ascii (l : list Z) : bool := existsb (fun b => negb (is_ascii b)) l.
-Definition after_dot (l : list Z) : list Z :=
-  match find_byte 46 l with Some i => skipn (S i) l | None => [] end.
-Definition lit_known (f : Z) (l : list Z) : Z :=
-  if (f =? f_hex) && has_non_ascii l then 1
-  else if (f =? f_bin) && has_non_ascii l then 2
-  else if (f =? f_time) && has_non_ascii (after_dot (trim l)) then 3
-  else if ((f =? f_lp) || (f =? f_lpt)) && (zl_eqb (trim l) [39] || zl_eqb (trim l) [34]) then 4
-  else 0.
